@@ -434,6 +434,8 @@ class Sim:
         self.slots = {}
         self.occ = collections.Counter()
         self.last_out = {}
+        self.post_writer = {}  # id(physical location) -> pre-allocation index of the last original instruction that wrote it
+        self.cur_writer = None
         self.taken = []  # choices actually made (for the replay file)
         self.dist = dist
         self.reads_compared = 0
@@ -468,7 +470,11 @@ class Sim:
         self._write(self.pre_state, self.pre_loc(r), sym)
 
     def post_write(self, r, sym):
-        self._write(self.post_state, self.model.phys(r), sym)
+        loc = self.model.phys(r)
+        self._write(self.post_state, loc, sym)
+        self.post_writer[id(loc)] = self.cur_writer
+        for a in self.model.overlap(loc):
+            self.post_writer[id(a)] = self.cur_writer
 
     # -- describing symbols ------------------------------------------------------
     def uid(self, x):
@@ -514,6 +520,7 @@ class Sim:
     def exec_both(self, xp, xq, where):
         n = self.occ[id(xp.ins)]
         self.occ[id(xp.ins)] += 1
+        self.cur_writer = self.rec.pre_index[id(xp.ins)]
         if len(xp.uses) != len(xq.uses) or len(xp.defs) != len(xq.defs):
             raise Mismatch("structure", "[%s] changed its operand lists during allocation" % xp.text)
         ins_a, ins_b = [], []
@@ -532,7 +539,7 @@ class Sim:
                     "read",
                     "%s reads operand %r from %s: before allocation it holds %s; after allocation %s holds %s"
                     % (where, xp.uses[k].name, pl.name, self.describe(a), pl.name, self.describe(b)),
-                    {"reader": self.rec.pre_index[id(xp.ins)], "operand": k, "clobberer": origin(b)},
+                    {"reader": self.rec.pre_index[id(xp.ins)], "operand": k, "clobberer": self.post_writer.get(id(pl))},
                 )
         if xp.plain_move:
             self.pre_write(xp.defs[0], ins_a[0])
@@ -554,6 +561,7 @@ class Sim:
             raise ModelProblem("instruction [%s] appeared during allocation but was not produced by gen_load/gen_store" % x.text)
         n = self.occ[id(x.ins)]
         self.occ[id(x.ins)] += 1
+        self.cur_writer = None
         inputs = [self.post_get(r) for r in x.uses]
         for ui, pid_, pj in role["deps"]:
             if pid_ in self.rec.new_removed or ui >= len(inputs):
